@@ -8,6 +8,7 @@ pid = sys.argv[1]; n = int(sys.argv[2]) if len(sys.argv) > 2 else 10
 tier = sys.argv[3] if len(sys.argv) > 3 else 'quick'
 P = importlib.import_module(pid)
 cases = list(P.gen(random.Random(int(os.environ.get('VERIF_SEED', '1'))), tier))
+if len(sys.argv) > 4: cases = cases[:int(sys.argv[4])]
 lines = ['%d %s' % (i, c) for i, c in enumerate(cases)]
 mo = R.run_driver('/verif/.work/ocaml/driver', lines, False)
 co = R.run_driver('/verif/.work/c-%s/drv' % pid, lines, True)
